@@ -4,7 +4,7 @@
    item   ::= (0 id sdna fit?) | (1 gid item ...)            fit? ::= () | (z)   fitness in 64ths
    draw   ::= (0 i) | (1 i ...) | (2 f) | (3 z)              index / index list / float in 64ths / random() * 2^53
    nspec  ::= (0 k) | (1 num lg) | (2)
-   where  ::= (0) | (1 k)                                    where.ALL / where.Any(k)
+   where  ::= (0) | (1 k) | (2)                              where.ALL / where.Any(k) / lambda xs: xs[::2]
    nwhere ::= (c f x)                                        the node kinds the mutators' [where] accepts
    prob   ::= (num lg)
    opx    ::= (0 prim) | (1) | (2 a b) Pipe | (3 a b) Union | (4 a b) Inter | (5 a b) Concat | (6 a b) Diff | (7 a b) SymDiff
@@ -104,7 +104,7 @@ Definition d_nspec (t : tr) : option nspec :=
   | _ => None end.
 Definition d_wfn (t : tr) : option wfn := match t with I 0 => Some WConst | I 1 => Some WFit | _ => None end.
 Definition d_where (t : tr) : option wheresel :=
-  match t with L [I 0] => Some WAll | L [I 1; k] => do k' <- dnat k; Some (WAny k') | _ => None end.
+  match t with L [I 0] => Some WAll | L [I 1; k] => do k' <- dnat k; Some (WAny k') | L [I 2] => Some WEvens | _ => None end.
 Definition d_nwhere (t : tr) : option nwhere :=
   match t with L [c; f; x] => do c' <- dbool c; do f' <- dbool f; do x' <- dbool x;
                               Some {| w_choice := c'; w_float := f'; w_custom := x' |} | _ => None end.
